@@ -43,7 +43,11 @@ partial def loop (sl : Slice) (h : IO.FS.Stream) (out : IO.FS.Stream) (st : sl.Ï
 def main (args : List String) : IO UInt32 := do
   match args with
   | [name] =>
-    match slices.lookup (if name.startsWith "wasm" then "wasm" else if name.startsWith "overlay" then "overlay" else name) with
+    let found : Option Slice :=
+      if name.startsWith "wasm" then
+        some { Ïƒ := WState, init := { api := apiOfSlice name }, step := fun st toks => stepWasm st (" ".intercalate toks) }
+      else slices.lookup (if name.startsWith "overlay" then "overlay" else name)
+    match found with
     | some sl =>
       let out â† IO.getStdout
       loop sl (â† IO.getStdin) out sl.init
